@@ -4,6 +4,7 @@ import (
 	"bytes"
 	"fmt"
 	"io"
+	"os"
 	"reflect"
 	"sort"
 	"strings"
@@ -364,8 +365,16 @@ func c08Run(cs c08Case) (string, []lib.Problem) {
 	return "bad-case", []lib.Problem{{Key: "c08:bad-case", What: "unknown seam " + cs.Seam}}
 }
 
-func c08Enum(c *lib.Ctx, yield func(c08Case) bool) {
+func c08Enum(c *lib.Ctx, yield0 func(c08Case) bool) {
 	unsupported := map[string]bool{}
+	dry := os.Getenv("VERIF_C08_DRY") != "" // dev knob: only count the cases
+	yield := func(cs c08Case) bool {
+		c.Add("cases_"+cs.Seam+"_"+cs.Type, 1)
+		if dry {
+			return true
+		}
+		return yield0(cs)
+	}
 	for _, t := range c08MsgTypes() {
 		v := reflect.New(t).Elem()
 		leaves := latCollect(v, unsupported)
@@ -422,6 +431,7 @@ func init() {
 			"(ints {1,-1,min,max}, uints {1,max,2^53+1}, strings {a, quote/backslash, multi-byte, NUL, <&>}, slices {empty,[zero],[rich],[alt,zero]}, bools, any {\"x\"}); messages go Deliver/Send -> port SaveCheckpoint -> LoadCheckpoint into a fresh identical port -> Retrieve (with a second message of another type behind them), events go Schedule -> engine SaveCheckpoint -> LoadCheckpoint into a fresh engine -> Run -> handler. " +
 			"(ii) every library component built standalone (12 memory agents, switch, endpoint, memaccessagent): its freshly built State with every single location moved (thorough: every pair), locations found by walking the State value (first/last element of populated slices; Buffers, Pipelines and LRU sets are driven through their own methods), component SaveCheckpoint -> LoadCheckpoint into a fresh build -> State compared, SaveCheckpoint bytes compared. " +
 			"Oracle: same concrete type and reflect.DeepEqual; differences are located by a structural walk and keyed by class (nil-vs-empty / value-changed / type-changed / excluded-field for json:\"-\" fields) and type-level path. Each (seam, type, set of moves) is a distinct case.",
+		Sharded:     true,
 		MinOutcomes: 100,
 		Assumptions: []string{
 			"strings are valid UTF-8 (encoding/json replaces invalid bytes) and floats are finite (JSON has no NaN/Inf)",
